@@ -216,6 +216,34 @@ impl Arith {
                 }
             }
         }
+        // sizes around the isize::MAX boundary for every bucket count and alignment: the padding
+        // guard (`isize::MAX - (align - 1)`) only matters within `align` bytes of the limit
+        let mut nbnd = 0u64;
+        for k in 0..63u32 {
+            let buckets = 1u128 << k;
+            for a in 0..=12u32 {
+                let align = 1u128 << a;
+                let ca = align.max(w as u128);
+                let room = isize::MAX as u128 + 1;
+                if buckets + w as u128 + ca > room {
+                    continue;
+                }
+                let centre = (room - buckets - w as u128) / buckets;
+                for d in -4i128..=4 {
+                    for extra in [0i128, -(ca as i128), ca as i128] {
+                        let cand = centre as i128 + d * align as i128 + extra / buckets as i128;
+                        if cand < 0 {
+                            continue;
+                        }
+                        let size = (cand as u128 / align * align) as usize;
+                        check_layout(size, align as usize, k)?;
+                        nbnd += 1;
+                    }
+                }
+            }
+        }
+        detail.insert("calculate_layout_for_isize_boundary_evaluations".into(), json!(nbnd));
+        nl += nbnd;
         detail.insert("calculate_layout_for_evaluations".into(), json!(nl));
         evals += nl;
         // 4. probe machine
